@@ -264,6 +264,14 @@ func c20ParseChains(s string) []map[string]interface{} {
 				m[k] = true
 			case 'b':
 				m[k] = false
+			case 'l': // a list-valued setting, as JSON decoding yields it
+				l := []interface{}{}
+				if len(v) > 1 {
+					for _, it := range strings.Split(v[1:], "|") {
+						l = append(l, it)
+					}
+				}
+				m[k] = l
 			default:
 				panic("value " + v)
 			}
@@ -289,6 +297,12 @@ func c20ShowVal(v interface{}) string {
 			return "t"
 		}
 		return "b"
+	case []interface{}:
+		its := []string{}
+		for _, it := range x {
+			its = append(its, fmt.Sprint(it))
+		}
+		return "l" + strings.Join(its, "|")
 	}
 	return fmt.Sprintf("?%T", v)
 }
@@ -841,6 +855,8 @@ func c20IsEmpty(v interface{}) bool {
 		return x == ""
 	case bool:
 		return !x
+	case []interface{}:
+		return len(x) == 0
 	}
 	return false
 }
@@ -950,8 +966,8 @@ func genC20(g *G) {
 		}
 	}
 	// --- merge: one key, every local x shared value pattern, through every loader
-	lv := []string{"", "n0", "n5", "s", "sx", "t", "b"}
-	sv := []string{"", "n0", "n7", "sx", "sy", "b", "t", "f5"}
+	lv := []string{"", "n0", "n5", "s", "sx", "t", "b", "l", "lh1", "lh1|h2"}
+	sv := []string{"", "n0", "n7", "sx", "sy", "b", "t", "f5", "l", "lh1", "lh3", "lh3|h4"}
 	kv := func(k, v string) string {
 		if v == "" {
 			return ""
@@ -1016,9 +1032,9 @@ func genC20(g *G) {
 			c := "id=" + lid + ",type=s" + g.Pick([]string{"evm", "substrate", "btc"})
 			for _, k := range keys {
 				if g.Intn(2) == 0 {
-					vals := []string{"n5", "n6", "sx", "sy", "t", "n-3"}
+					vals := []string{"n5", "n6", "sx", "sy", "t", "n-3", "lh1", "lh1|h2"}
 					if withEmpty {
-						vals = append(vals, "n0", "s", "b")
+						vals = append(vals, "n0", "s", "b", "l")
 					}
 					c += "," + k + "=" + g.Pick(vals)
 				}
@@ -1048,7 +1064,7 @@ func genC20(g *G) {
 			}
 			for _, k := range keys {
 				if g.Intn(2) == 0 {
-					c += "," + k + "=" + g.Pick([]string{"n0", "n5", "n7", "s", "sx", "sz", "t", "b"})
+					c += "," + k + "=" + g.Pick([]string{"n0", "n5", "n7", "s", "sx", "sz", "t", "b", "lh3", "lh3|h4", "l"})
 				}
 			}
 			sh = append(sh, c)
